@@ -80,14 +80,16 @@ class Reader:
         return list(self.got)
 
 
-def feed(w, link, to_side, conn, data):
-    """one TCP segment arrives; an exception out of dataReceived makes Twisted drop the connection"""
+def feed(w, link, to_side, conn, data, linger=False):
+    """one TCP segment arrives; an exception out of dataReceived makes Twisted drop the connection (linger: the transport is a
+    layered one that goes on handing over what it has already received until the close completes, as ITransport allows)"""
     CTX.world = w
     try:
         conn.dataReceived(data)
     except Exception as e:
         w.errors.append((type(e).__name__, str(e)[:80], "dataReceived"))
-        close_end(link, to_side, error.ConnectionLost())
+        if not linger:
+            close_end(link, to_side, error.ConnectionLost())
 
 
 # ------------------------------------------------------------------ chunking (path merging)
@@ -246,8 +248,16 @@ def run_manip(args):
     viol = []
     if chunking == "whole":
         pieces = [ns]
-    elif chunking == "split" and complete_at:
+    elif chunking in ("split", "split-linger") and complete_at:
         pieces = [ns[:complete_at - 1], ns[complete_at - 1:complete_at], ns[complete_at:]]
+        if chunking == "split-linger":
+            # what follows the manipulated frame arrives frame by frame, after the connection was told to close
+            rest = ns[complete_at:]
+            pieces = pieces[:2]
+            while rest:
+                ln = 4 + int.from_bytes(rest[:4], "big") if len(rest) >= 4 else len(rest)
+                pieces.append(rest[:ln])
+                rest = rest[ln:]
     else:
         pieces = [ns[i:i + 1] for i in range(len(ns))]
     fed = 0
@@ -257,11 +267,13 @@ def run_manip(args):
             continue
         if dst.transport.closed:
             break
-        feed(w, link, to_side, dst, p)
+        feed(w, link, to_side, dst, p, linger=(chunking == "split-linger"))
         fed += len(p)
         reader.drain()
         if dropped_at is None and (dst.transport.disconnecting or dst.transport.closed):
             dropped_at = fed
+        if complete_at is not None and fed >= complete_at and chunking == "split-linger" and (dst.transport.disconnecting or dst.transport.closed):
+            continue      # told to close; the transport lingers: keep delivering what is in flight
         if complete_at is not None and fed >= complete_at and not (dst.transport.disconnecting or dst.transport.closed):
             viol.append(dict(oracle="drop-on-tamper", sig="%s:not-dropped" % name,
                              msg="%s %r: the manipulated record was complete at byte %d, %d bytes fed, connection still up (state %r)" % (
@@ -314,7 +326,9 @@ def enumerate_manipulations(chk):
                 for mode in ("queue", "waiting", "consumer"):
                     if big and mode == "waiting":
                         continue
-                    for chunking in (("whole", "split", "bytes") if not big else ("whole", "split")):
+                    for chunking in (("whole", "split", "split-linger", "bytes") if not big else ("whole", "split", "split-linger")):
+                        if chunking == "split-linger" and not complete_at:
+                            continue
                         if chk.tier == "quick" and chunking == "bytes" and name == "flip" and (info[1] % 3):
                             continue
                         tasks.append((records, direction, mode, name, info, ns, first_bad, complete_at, chunking))
@@ -334,7 +348,8 @@ def enumerate_manipulations(chk):
                  "every single manipulation of the ciphertext stream of 3-record exchanges (sizes 0/1/17 and 5/70000/0): bit flip at every "
                  "byte (boundary set for the 70000-byte record), delete / replay / swap a record, truncate inside a record, inject a record under a "
                  "wrong key, reflect a record of the opposite direction; x reader mode (queued reads, waiting reads, consumer) x chunking (one "
-                 "segment, split at the byte that completes the manipulated frame, byte-by-byte) x both directions; distinct_nontrivial = distinct "
+                 "segment, split at the byte that completes the manipulated frame, the same on a transport that keeps delivering the following "
+                 "frames after loseConnection(), byte-by-byte) x both directions; distinct_nontrivial = distinct "
                  "(operation, dropped?, amount delivered) classes", [dict(op=t[3], info=list(t[4]), mode=t[2], chunking=t[8]) for t in tasks[::max(1, len(tasks) // 5)]][:5], viol)
 
 
